@@ -89,6 +89,9 @@ HostileSh(r) ==
    <<"root", sh(Shg("O", r.s, r.g, FlagOf(r.s), "leader", FALSE))>>,
    <<"sig", sh(Shg("B", r.s, r.g, FlagOf(r.s), "other", FALSE))>>,
    <<"payload", sh(Shg("B", r.s, r.g, FlagOf(r.s), "leader", TRUE))>>,
+   \* an authentic shred with the data/coding kind flipped on the wire (r.g ranges over data and
+   \* coding groups: both directions)
+   <<"tag", sh(Flip(GoodShg(r.s, r.g)))>>,
    \* the Byzantine leader also signed this slice with the other last-flag
    <<"twin", sh(Shg("B", r.s, r.g, ~FlagOf(r.s), "leader", FALSE))>>}
   \cup {<<"index", sh(GoodShg(r.s, g))>> : g \in Groups \ {r.g}}
@@ -111,7 +114,9 @@ Hostile ==
 
 ---------------------------------------------------------------------------
 NoAns == [v |-> "-", ok |-> FALSE]
-Exp(res, ans) == [wire |-> res.wire, ev |-> res.ev, ans |-> ans, panic |-> res.st.panic]
+\* inv: InvalidBlock events sent to Votor in this step
+Exp(res, ans) == [wire |-> res.wire, ev |-> res.ev, ans |-> ans, panic |-> res.st.panic,
+                  inv |-> IF res.st.flagged /\ ~st.flagged THEN 1 ELSE 0]
 
 Step(a, res, ans, started2, again2, hb2, tb2) ==
   /\ st' = res.st
@@ -180,6 +185,7 @@ Obs(s) ==
    sh |-> [i \in 1..NS |-> s.bs.sh[i - 1]],
    marker |-> s.bs.marker,
    done |-> s.bs.done,
+   flagged |-> s.flagged,            \* leader_misbehaved of the slot (gates dissemination shreds)
    \* the dissemination spot's commitment cache is what Rotor left there: repair never writes to it
    dcache |-> [i \in 1..NS |-> DissemCache(dissem, i - 1) # <<>>],
    other |-> FALSE]                  \* nothing is proven or filed under an identifier never asked for
@@ -190,6 +196,7 @@ EmitState == PrintT(<<"STATE", ToJson([id |-> sid, init |-> (TLCGet("level") = 1
 Inv_StoredOnlyIfHashMatches == StoredOnlyIfHashMatches(st)
 Inv_ProvenRootsAreTrue == ProvenRootsAreTrue(st)
 Inv_NoPanic == NoPanic(st)
+Inv_NeverFlagged == CorrectLeaderNeverFlaggedByRepair(st)
 Inv_Progressable == Progressable(st, started)
 \* stored shreds and proven roots never change once set (NoCorruption), as an action property
 NoCorruption ==
@@ -283,9 +290,11 @@ InitS ==
 
 \* whatever the hostile peer scripted, the block is stored and announced exactly once, under hash(B)
 ScenarioCompletes ==
-  LET f == Final(c) IN f.bs.done = "B" /\ f.ann = <<"B">> /\ ~f.panic /\ f.out = {}
+  LET f == Final(c) IN f.bs.done = "B" /\ f.ann = <<"B">> /\ ~f.panic /\ f.out = {} /\ ~f.flagged
 EmitScen ==
   LET f == Final(c)
   IN PrintT(<<"SCEN", ToJson([dissem |-> dissem, script |-> [k \in 1..Len(c) |-> [kind |-> c[k][1], rp |-> c[k][2]]],
-                               exp |-> [done |-> f.bs.done, ann |-> f.ann, panic |-> f.panic]])>>)
+                               exp |-> [done |-> f.bs.done, ann |-> f.ann, panic |-> f.panic,
+                                        \* no InvalidBlock; the slot still takes dissemination shreds
+                                        inv |-> IF f.flagged THEN 1 ELSE 0, accepts |-> ~f.flagged]])>>)
 =============================================================================
